@@ -18,6 +18,9 @@ def main():
     if a.replay:
         from . import runner
         sys.exit(runner.replay_path(a.replay))
+    if prop == 'C17':
+        from . import e4
+        sys.exit(e4.main(a.tier, seed, keep=a.keep))
     if prop in ('C11', 'C12'):
         from . import e2
         sys.exit(e2.main(prop, a.tier, seed, keep=a.keep))
@@ -37,6 +40,7 @@ ALL = {
     'C10': 'p_c10',
     'C14': 'p_c14',
     'C15': 'p_c15',
+    'C18': 'p_c18',
     'C19': 'p_c19',
     'C20': 'p_c20',
 }
